@@ -5,6 +5,7 @@ package main
 // implementation ignores (the model uses it in place of the version parser).
 
 import (
+	"deps.dev/util/resolve"
 	"deps.dev/util/semver"
 
 	"verifharness/sx"
@@ -91,22 +92,44 @@ func init() {
 		}
 		return sx.L(sx.Sym("ok"), sx.Int(csBit(c.IsSimple())), sx.B(c.Set().String()), rawSx(semver.VerifDumpSet(c.Set())))
 	})
-	// cmatch: (sys text (probe...) table) -> ("err") | ("ok" (("verr") | (MatchVersion MatchVersionPrerelease Set.MatchVersion))...)
+	// cmatch: (sys text (probe...) table) -> ("err") | ("ok" (row...)), row =
+	//   ("verr" Match(string) MatchRequirement) | (MatchVersion MatchVersionPrerelease Set.MatchVersion Match(string) MatchRequirement)
+	// Match(string) is Constraint.Match on the candidate TEXT; MatchRequirement is
+	// resolve.MatchRequirement for npm (membership of the candidate in its result), -1 otherwise.
 	register("cmatch", func(a sx.V) sx.V {
 		sys := sysOf(a.Nth(0))
 		c, err := sys.ParseConstraint(a.Nth(1).Str())
 		if err != nil {
 			return sx.L(sx.Sym("err"))
 		}
-		ps := csParseProbes(sys, a.Nth(2).List())
+		texts := a.Nth(2).List()
+		ps := csParseProbes(sys, texts)
+		inReq := map[string]bool{}
+		if sys == semver.NPM {
+			var vs []resolve.Version
+			for _, t := range texts {
+				vs = append(vs, resolve.Version{VersionKey: resolve.VersionKey{
+					PackageKey: resolve.PackageKey{System: resolve.NPM, Name: "p"}, VersionType: resolve.Concrete, Version: t.Str()}})
+			}
+			req := resolve.VersionKey{PackageKey: resolve.PackageKey{System: resolve.NPM, Name: "p"},
+				VersionType: resolve.Requirement, Version: a.Nth(1).Str()}
+			for _, m := range resolve.MatchRequirement(req, vs) {
+				inReq[m.Version] = true
+			}
+		}
 		var rows []sx.V
-		for _, p := range ps {
+		for k, p := range ps {
+			ms := sx.Int(csBit(c.Match(texts[k].Str())))
+			mr := sx.Int(-1)
+			if sys == semver.NPM {
+				mr = sx.Int(csBit(inReq[texts[k].Str()]))
+			}
 			if !p.ok {
-				rows = append(rows, sx.L(sx.Sym("verr")))
+				rows = append(rows, sx.L(sx.Sym("verr"), ms, mr))
 				continue
 			}
 			rows = append(rows, sx.L(sx.Int(csBit(c.MatchVersion(p.v))), sx.Int(csBit(c.MatchVersionPrerelease(p.v))),
-				sx.Int(csBit(c.Set().MatchVersion(p.v)))))
+				sx.Int(csBit(c.Set().MatchVersion(p.v))), ms, mr))
 		}
 		return sx.L(sx.Sym("ok"), sx.L(rows...))
 	})
